@@ -21,6 +21,16 @@ use tokio_util::sync::CancellationToken;
 
 const LIMIT: usize = 2;
 
+/// a status adapter that records the client address it is given (C15: the adapters see the effective address)
+#[derive(Debug, Default)]
+struct RecordingStatus(std::sync::Mutex<Vec<SocketAddr>>);
+impl passage_adapters::status::StatusAdapter for RecordingStatus {
+    async fn status(&self, client_addr: &SocketAddr, _server_addr: (&str, u16), _protocol: passage_adapters::Protocol) -> passage_adapters::Result<Option<passage_adapters::ServerStatus>> {
+        self.0.lock().unwrap().push(*client_addr);
+        Ok(Some(passage_adapters::ServerStatus::default()))
+    }
+}
+
 #[derive(Clone, Debug)]
 enum Conn {
     /// no PROXY header at all (only meaningful with the PROXY protocol disabled)
@@ -82,9 +92,11 @@ async fn run_sequence(name: &str, proxy: bool, seq: &[Conn]) -> usize {
     let address = SocketAddr::from(([127, 0, 0, 1], port));
     let stop = CancellationToken::new();
     let token = stop.clone();
+    let recorder = Arc::new(RecordingStatus::default());
+    let rec2 = recorder.clone();
     let server = tokio::spawn(async move {
         let mut l = Listener::new(
-            Arc::new(FixedStatusAdapter::default()),
+            rec2,
             Arc::new(FixedDiscoveryAdapter::new(vec![])),
             Arc::new(Vec::<MetaFilterAdapter>::new()),
             Arc::new(AnyStrategyAdapter::new()),
@@ -131,7 +143,23 @@ async fn run_sequence(name: &str, proxy: bool, seq: &[Conn]) -> usize {
                 }
             }
         };
+        let before = recorder.0.lock().unwrap().len();
         let got = is_served(address, &header(c)).await;
+        // a served connection: the adapters must have been given the effective address (ip and, for an announced source, port)
+        if got && want {
+            let seen = recorder.0.lock().unwrap().get(before).copied();
+            let announced: Option<SocketAddr> = match c { Conn::V1(s) | Conn::V2(s) if proxy => s.parse().ok(), _ => None };
+            let ok = match (seen, announced, effective(c, proxy, peer)) {
+                (Some(a), Some(src), _) => a == src,
+                (Some(a), None, Some(ip)) => a.ip() == ip,
+                _ => false,
+            };
+            if !ok {
+                println!("REPRODUCED admission sequence {name}: connection #{i} {c:?} was served, but the status adapter was given the client address {seen:?} instead of the effective address {:?}", announced.map(|a| a.to_string()).or(effective(c, proxy, peer).map(|i| i.to_string())));
+                found += 1;
+                break;
+            }
+        }
         if got != want {
             println!(
                 "REPRODUCED admission sequence {name} (proxy protocol {}, limit {LIMIT}/h): connection #{i} {c:?} was {} but its effective address {:?} {} (sequence {seq:?})",
@@ -301,6 +329,53 @@ pub fn stall(_seed: u64) -> usize {
             );
             found += 1;
         }
+    }
+    // many silent clients at once (no PROXY protocol, no limiter): a well-behaved client is still served at once
+    let delayed = rt.block_on(async {
+        let port = std::net::TcpListener::bind("127.0.0.1:0").expect("bind").local_addr().unwrap().port();
+        let address = SocketAddr::from(([127, 0, 0, 1], port));
+        let stop = CancellationToken::new();
+        let token = stop.clone();
+        let server = tokio::spawn(async move {
+            let mut l = Listener::new(
+                Arc::new(FixedStatusAdapter::default()),
+                Arc::new(FixedDiscoveryAdapter::new(vec![])),
+                Arc::new(Vec::<MetaFilterAdapter>::new()),
+                Arc::new(AnyStrategyAdapter::new()),
+                Arc::new(FixedAuthenticationAdapter::default()),
+                Arc::new(FixedLocalizationAdapter::default()),
+            )
+            .with_connection_timeout(Duration::from_secs(30));
+            let _ = l.listen(address, token).await.map_err(|e| e.to_string());
+        });
+        let mut up = false;
+        for _ in 0..300 {
+            if let Ok(mut s) = TcpStream::connect(address).await {
+                let _ = s.shutdown().await;
+                up = true;
+                break;
+            }
+            tokio::time::sleep(Duration::from_millis(10)).await;
+        }
+        if !up {
+            return false;
+        }
+        let mut silent = vec![];
+        for _ in 0..400 {
+            if let Ok(s) = TcpStream::connect(address).await {
+                silent.push(s);
+            }
+        }
+        tokio::time::sleep(Duration::from_millis(300)).await;
+        let served = tokio::time::timeout(Duration::from_secs(2), is_served(address, &[])).await;
+        drop(silent);
+        stop.cancel();
+        let _ = tokio::time::timeout(Duration::from_secs(3), server).await;
+        !matches!(served, Ok(true))
+    });
+    if delayed {
+        println!("REPRODUCED stall (400 silent clients, proxy protocol off): a well-behaved client that connected after them was not served within 2 s");
+        found += 1;
     }
     // a client that is over its rate limit and stays silent must not hold up a client with another address
     let delayed = rt.block_on(async {
